@@ -3,11 +3,12 @@ package verifsim
 // C15 — contract execution is atomic, pays for itself and cannot overspend.
 // This file holds the workload side of the monitor: bookkeeping of contract instances,
 // generators of deploy/call/terminate transactions for every embedded contract type and the
-// bundled WASM contracts (valid shapes and mutated ones), and observation helpers that read
-// twin post-states. The oracles live in c15_test.go.
+// bundled WASM contracts (valid shapes derived from the on-chain contract state, and mutated
+// ones), and observation helpers that read twin post-states. The oracles live in c15_test.go.
 
 import (
 	"bytes"
+	"encoding/binary"
 	"fmt"
 	"math/big"
 	"sort"
@@ -17,7 +18,6 @@ import (
 	"github.com/idena-network/idena-go/blockchain/attachments"
 	"github.com/idena-network/idena-go/blockchain/fee"
 	"github.com/idena-network/idena-go/blockchain/types"
-	"github.com/idena-network/idena-go/blockchain/validation"
 	"github.com/idena-network/idena-go/common"
 	"github.com/idena-network/idena-go/core/appstate"
 	"github.com/idena-network/idena-go/core/state"
@@ -59,12 +59,14 @@ var c15Methods = map[string][]string{
 	kOV:       {"startVoting", "sendVoteProof", "sendVote", "finishVoting", "prolongVoting", "addStake"},
 	kOL:       {"push", "checkOracleVoting"},
 	kROL:      {"deposit", "push", "refund"},
-	kErc20:    {"transfer", "approve", "transferFrom", "getBalance", "allowance", "transfer_from", "get_balance"},
+	kErc20:    {"transfer", "approve", "transferFrom", "getBalance", "allowance"},
 	kInc:      {"inc"},
 	kSum:      {"invoke", "_sum"},
-	kSft:      {"transferTo", "getBalance", "receive", "_addBalance", "_subBalance", "_deploy_wallet_callback", "_send_tokens_callback"},
+	kSft:      {"transferTo", "getBalance", "receive", "_addBalance"},
 	kCases:    {"test", "_deployCallback"},
 }
+
+var c15KnownMethod = map[string]bool{}
 
 var c15WasmCode = map[string][]byte{}
 var c15WasmByHash = map[common.Hash]string{}
@@ -83,6 +85,11 @@ func init() {
 	load(kSum, testdata.SumFunc)
 	load(kSft, testdata.SharedFungibleToken)
 	load(kCases, testdata.TestCases)
+	for _, l := range c15Methods {
+		for _, m := range l {
+			c15KnownMethod[m] = true
+		}
+	}
 }
 
 func c15IsWasmKind(kind string) bool { return len(kind) > 5 && kind[:5] == "wasm:" }
@@ -92,8 +99,8 @@ func c15KindOfHash(h *common.Hash) string {
 	if h == nil {
 		return "none"
 	}
-	for k, v := range c15CodeHash {
-		if v == *h {
+	for _, k := range c15EmbeddedKinds {
+		if c15CodeHash[k] == *h {
 			return k
 		}
 	}
@@ -103,15 +110,22 @@ func c15KindOfHash(h *common.Hash) string {
 	return "wasm:other"
 }
 
-// c15VersionedKind distinguishes the two implementations selected by the consensus version.
-func (g *C15Gen) versioned(kind string) string {
+// c15Versioned distinguishes the two implementations selected by the consensus version.
+func c15Versioned(kind string, upgrade10 bool) string {
 	if kind == kOV || kind == kROL {
-		if g.W.Cons.EnableUpgrade10 {
+		if upgrade10 {
 			return kind + "2"
 		}
 		return kind + "1"
 	}
 	return kind
+}
+
+func c15MethodClass(m string) string {
+	if c15KnownMethod[m] {
+		return m
+	}
+	return "unknown-method"
 }
 
 // ------------------------------------------------------------------ instances
@@ -120,43 +134,62 @@ type C15Contract struct {
 	Kind     string
 	Addr     common.Address
 	Owner    *Actor
-	DeployTx common.Hash
-	Born     int // step
+	Born     int
+	Deployed bool // seen in the canonical chain
+	Dead     bool // terminated (or never made it into the chain)
 	// parameters the generator needs to build valid calls
-	Timestamp    uint64                    // TimeLock
-	MaxVotes     byte                      // Multisig
-	MinVotes     byte                      // Multisig
-	Voters       []*Actor                  // Multisig voters added so far / OV voters that sent a proof
-	Salts        map[common.Address][]byte // OV: voter -> salt
-	Votes        map[common.Address]byte   // OV: voter -> vote
-	VotingDur    uint64                    // OV
-	Committee    uint64                    // OV
-	MinPayment   *big.Int                  // OV
-	StartTime    uint64                    // OV
-	OV           common.Address            // OL / ROL: bound voting
-	Value        byte                      // OL / ROL
-	Deadline     uint64                    // ROL
-	Delay        uint64                    // ROL
-	Depositors   []*Actor
-	Supply       *big.Int // erc20: Σ balances recorded at deployment
-	Root         bool     // sft
-	Inc          common.Address // sum_func: bound inc contract
-	BlockedUntil int            // real-chain discipline: no second tx of this instance in one block
+	Timestamp  uint64 // TimeLock
+	MaxVotes   byte   // Multisig
+	MinVotes   byte
+	Added      []*Actor       // Multisig: voters the owner tried to add
+	PropDest   common.Address // Multisig: proposal voters converge on
+	PropAmount *big.Int
+	Salts      map[common.Address][]byte // OV: voter -> salt
+	Votes      map[common.Address]byte   // OV: voter -> vote
+	VotingDur  uint64
+	MinPayment *big.Int
+	StartTime  uint64
+	OV         common.Address // OL / ROL: bound voting
+	Value      byte
+	Deadline   uint64 // ROL
+	Inc        common.Address // sum_func: bound inc contract
+	Holders    []*Actor       // erc20: who may hold tokens
 }
 
 // C15Action is one generated contract transaction with what the harness knows about it.
 type C15Action struct {
 	Tx       *types.Transaction
 	From     *Actor
-	C        *C15Contract // target or (deploy) the instance being created
-	Kind     string       // contract type (versioned) — "none" if the target is not a contract
+	C        *C15Contract // target, or (deploy) the instance being created
+	Kind     string       // contract type (versioned); "none" if the target is not a contract
 	TxKind   string       // Deploy / Call / Terminate
-	Method   string       // class of the method name (known names verbatim, anything else "unknown-method")
+	Method   string       // method class: known names verbatim, anything else "unknown-method"
 	Shape    string       // "valid" or "mut:<what>"
 	Args     [][]byte
-	RawMeth  string
 	GasClass string
 	Submit   bool // also goes to the real chain
+	Urgent   bool
+}
+
+func (a *C15Action) Describe() string {
+	to := "nil"
+	if a.Tx.To != nil {
+		to = fmt.Sprintf("%x", a.Tx.To[:4])
+	}
+	var as []string
+	for _, x := range a.Args {
+		as = append(as, fmt.Sprintf("%x", trunc(x, 24)))
+	}
+	return fmt.Sprintf("%s %s.%s from=%s to=%s nonce=%d amount=%v maxFee=%v tips=%v shape=%s gas=%s args=%v", a.TxKind, a.Kind, a.Method, a.From.Name, to,
+		a.Tx.AccountNonce, a.Tx.AmountOrZero(), a.Tx.MaxFeeOrZero(), a.Tx.TipsOrZero(), a.Shape, a.GasClass, as)
+}
+
+// C15Multi is a designated several-transactions-in-one-block class.
+type C15Multi struct {
+	Class string // e.g. "OracleVoting2:sendVote+finishVoting"
+	C     *C15Contract
+	Acts  []*C15Action
+	After []*C15Action // what goes to the real chain one block later if the class is unsafe there
 }
 
 type C15Gen struct {
@@ -166,13 +199,18 @@ type C15Gen struct {
 	Contracts []*C15Contract
 	Step      int
 	Funded    []*Actor // actors with plenty of coins (identities and accounts)
-	WasmOn    bool
-	nonceSeq  int
+	Kinds     []string // enabled contract types
+	HostilePct int
+	usedC     map[*C15Contract]bool
+	usedS     map[common.Address]bool
+	jumped    bool
 }
 
-func NewC15Gen(w *World, twin *Replica, r *verifutil.Rng) *C15Gen {
-	return &C15Gen{W: w, R: r, Twin: twin, WasmOn: w.Cons.EnableUpgrade11}
+func NewC15Gen(w *World, twin *Replica, r *verifutil.Rng, kinds []string) *C15Gen {
+	return &C15Gen{W: w, R: r, Twin: twin, Kinds: kinds, HostilePct: 35}
 }
+
+func (g *C15Gen) up10() bool { return g.W.Cons.EnableUpgrade10 }
 
 // Fund lets god send coins to every identity and account so that deposits, stakes and large
 // gas budgets are affordable; returns after the transfers are in the chain.
@@ -181,7 +219,6 @@ func (g *C15Gen) Fund(per *big.Int) error {
 	var targets []*Actor
 	targets = append(targets, w.Idents...)
 	targets = append(targets, w.Accounts...)
-	targets = append(targets, w.Nodes...)
 	g.Funded = append(g.Funded, w.Idents...)
 	g.Funded = append(g.Funded, w.Accounts...)
 	for len(targets) > 0 {
@@ -255,8 +292,8 @@ func c15DescribeKey(k string) string {
 			return fmt.Sprintf("%s(%x)", cls, b[1:5])
 		}
 	case "contractStore":
-		if len(b) > 21 {
-			return fmt.Sprintf("contractStore(%x:%q)", b[1:5], string(b[21:]))
+		if len(b) >= 21 {
+			return fmt.Sprintf("contractStore(%x:%q)", b[1:5], string(trunc(b[21:], 40)))
 		}
 	}
 	return cls
@@ -267,61 +304,111 @@ func c15TxFee(pre *appstate.AppState, tx *types.Transaction) *big.Int {
 	return fee.CalculateFee(pre.ValidatorsCache.NetworkSize(), pre.State.FeePerGas(), tx)
 }
 
-// c15ActionStats walks the WASM action result tree of a receipt.
-type c15SubStats struct{ SubCalls, SubDeploys, SubCallsOK, SubDeploysOK, Depth int }
+type c15SubAction struct {
+	Type     uint32
+	OK       bool
+	Contract common.Address
+	Err      string
+}
 
-func c15WalkAction(data []byte) (st c15SubStats, ok bool) {
+// c15WalkAction flattens the sub-actions of the WASM action result tree of a receipt.
+func c15WalkAction(data []byte) (subs []c15SubAction, ok bool) {
 	if len(data) == 0 {
-		return st, false
+		return nil, false
 	}
 	var ar wasmmodels.ActionResult
 	if err := proto.Unmarshal(data, &ar); err != nil {
-		return st, false
+		return nil, false
 	}
 	var walk func(a *wasmmodels.ActionResult, d int)
 	walk = func(a *wasmmodels.ActionResult, d int) {
-		if d > st.Depth {
-			st.Depth = d
+		if d > 20 {
+			return
 		}
 		for _, s := range a.SubActionResults {
 			if s == nil {
 				continue
 			}
 			if s.InputAction != nil {
-				switch s.InputAction.ActionType {
-				case 1: // function call
-					st.SubCalls++
-					if s.Success {
-						st.SubCallsOK++
-					}
-				case 3: // deploy
-					st.SubDeploys++
-					if s.Success {
-						st.SubDeploysOK++
-					}
-				}
+				var ca common.Address
+				ca.SetBytes(s.Contract)
+				subs = append(subs, c15SubAction{Type: s.InputAction.ActionType, OK: s.Success, Contract: ca, Err: s.Error})
 			}
 			walk(s, d+1)
 		}
 	}
 	walk(&ar, 0)
-	return st, true
+	return subs, true
+}
+
+func c15U64(b []byte) uint64 {
+	if len(b) < 8 {
+		return 0
+	}
+	return binary.LittleEndian.Uint64(b)
+}
+
+func c15B0(b []byte) byte {
+	if len(b) == 0 {
+		return 0
+	}
+	return b[0]
+}
+
+func c15AddrOf(b []byte) common.Address {
+	var a common.Address
+	a.SetBytes(b)
+	return a
 }
 
 // ------------------------------------------------------------------ tx assembly
 
-// gas budget classes: the MaxFee a tx declares decides how much gas it may burn
-func (g *C15Gen) maxFeeFor(probe *types.Transaction, class string, wasmTx bool) *big.Int {
+func (g *C15Gen) st() *state.StateDB { return g.W.View().AppState.State }
+
+func (g *C15Gen) cval(c common.Address, key string) []byte {
+	return g.st().GetContractValue(c, []byte(key))
+}
+
+func (g *C15Gen) alive(c *C15Contract) bool {
+	return c != nil && !c.Dead && g.st().GetCodeHash(c.Addr) != nil
+}
+
+func (g *C15Gen) fpg() *big.Int { return g.st().FeePerGas() }
+
+func (g *C15Gen) minStake() *big.Int {
+	return new(big.Int).Mul(g.fpg(), big.NewInt(3000000))
+}
+
+// nextHeight / nextTime: what a contract executed in the next block will see (approximately for time)
+func (g *C15Gen) nextHeight() uint64 { return g.W.View().Head().Height() + 1 }
+func (g *C15Gen) nextTime() uint64   { return uint64(g.W.Now().Unix()) + 15 }
+
+// exactMaxFee returns the MaxFee that buys exactly `gas` units for the tx described by probe.
+func (g *C15Gen) exactMaxFee(probe *types.Transaction, gas int64) *big.Int {
 	v := g.W.View()
 	fpg := v.AppState.State.FeePerGas()
 	ns := v.AppState.ValidatorsCache.NetworkSize()
-	txFee := fee.CalculateFee(ns, fpg, probe)
 	minFpg := fee.GetFeePerGasForNetwork(ns)
-	minFee := fee.CalculateFee(ns, minFpg, probe)
-	base := new(big.Int).Set(txFee)
-	if base.Cmp(minFee) < 0 {
-		base.Set(minFee)
+	p := *probe
+	p.MaxFee = Dna(1)
+	var mf *big.Int
+	for i := 0; i < 4; i++ {
+		txFee := fee.CalculateFee(ns, fpg, &p)
+		mf = new(big.Int).Add(txFee, new(big.Int).Mul(fpg, big.NewInt(gas)))
+		// admission additionally wants MaxFee >= fee at the minimal rate
+		if minFee := fee.CalculateFee(ns, minFpg, &p); mf.Cmp(minFee) < 0 {
+			mf = minFee
+		}
+		if p.MaxFee.Cmp(mf) == 0 {
+			break
+		}
+		p.MaxFee = mf
 	}
+	return mf
+}
+
+// gas budget classes: the MaxFee a tx declares decides how much gas it may burn
+func (g *C15Gen) maxFeeFor(probe *types.Transaction, class string, wasmTx bool) *big.Int {
 	gas := int64(0)
 	switch class {
 	case "exact": // no gas at all
@@ -331,23 +418,23 @@ func (g *C15Gen) maxFeeFor(probe *types.Transaction, class string, wasmTx bool) 
 		if wasmTx {
 			gas = int64(g.R.Range(500, 30000))
 		} else {
-			gas = int64(g.R.Range(60, 900))
+			gas = int64(g.R.Range(60, 1500))
 		}
 	case "ample":
 		if wasmTx {
-			gas = int64(g.R.Range(400000, 1500000))
+			gas = int64(g.R.Range(100000, 400000))
 		} else {
 			gas = int64(g.R.Range(20000, 60000))
 		}
-	case "max": // right below the admission cap (MaxFee / minFeePerGas <= max block gas)
-		capFee := new(big.Int).Mul(minFpg, big.NewInt(int64(types.MaxBlockSize(g.W.Cons.EnableUpgrade11))))
-		return capFee
+	case "max": // right at the admission cap (MaxFee / minFeePerGas <= max block gas)
+		ns := g.W.View().AppState.ValidatorsCache.NetworkSize()
+		return new(big.Int).Mul(fee.GetFeePerGasForNetwork(ns), big.NewInt(int64(types.MaxBlockSize(g.W.Cons.EnableUpgrade11))))
 	}
-	return base.Add(base, new(big.Int).Mul(fpg, big.NewInt(gas)))
+	return g.exactMaxFee(probe, gas)
 }
 
-func (g *C15Gen) gasClass(wasmTx bool) string {
-	switch g.R.Pick(70, 6, 8, 10, 6) {
+func (g *C15Gen) pickGasClass() string {
+	switch g.R.Pick(76, 4, 6, 10, 4) {
 	case 0:
 		return "ample"
 	case 1:
@@ -360,12 +447,22 @@ func (g *C15Gen) gasClass(wasmTx bool) string {
 	return "max"
 }
 
-func (g *C15Gen) signed(from *Actor, t types.TxType, to *common.Address, amount *big.Int, payload []byte, gasClass string, wasmTx bool, tips *big.Int) *types.Transaction {
-	v := g.W.View()
-	ep := v.AppState.State.Epoch()
+func (g *C15Gen) sign(from *Actor, t types.TxType, to *common.Address, amount *big.Int, payload []byte, gasClass string, wasmTx bool, tips *big.Int) *types.Transaction {
+	ep := g.st().Epoch()
 	probe := &types.Transaction{AccountNonce: g.W.NextNonce(from), Epoch: ep, Type: t, To: to, Amount: amount, Payload: payload, MaxFee: Dna(1), Tips: tips}
 	maxFee := g.maxFeeFor(probe, gasClass, wasmTx)
 	return SignedTx(from, t, to, amount, maxFee, tips, probe.AccountNonce, ep, payload)
+}
+
+// WithGas re-signs the tx of an action with a MaxFee that buys exactly `gas` units (same nonce).
+func (g *C15Gen) WithGas(a *C15Action, gas int64) *C15Action {
+	tx := a.Tx
+	probe := &types.Transaction{AccountNonce: tx.AccountNonce, Epoch: tx.Epoch, Type: tx.Type, To: tx.To, Amount: tx.Amount, Payload: tx.Payload, Tips: tx.Tips}
+	b := *a
+	b.Tx = SignedTx(a.From, tx.Type, tx.To, tx.Amount, g.exactMaxFee(probe, gas), tx.Tips, tx.AccountNonce, tx.Epoch, tx.Payload)
+	b.GasClass = "sweep"
+	b.Submit = false
+	return &b
 }
 
 func c15Addr(r *verifutil.Rng) common.Address {
@@ -374,14 +471,842 @@ func c15Addr(r *verifutil.Rng) common.Address {
 	return a
 }
 
-// Included reports whether pool admission is to be expected to succeed (sanity for callers)
-func c15PoolCheck(r *Replica, tx *types.Transaction) error {
-	as, err := r.AppState.Readonly(r.Head().Height())
-	if err != nil {
-		return err
-	}
-	return validation.ValidateTx(as, tx, fee.GetFeePerGasForNetwork(as.ValidatorsCache.NetworkSize()), validation.MempoolTx)
+func u64b(v uint64) []byte { return common.ToBytes(v) }
+
+// ------------------------------------------------------------------ candidates
+
+// cand is one intended contract interaction before it is turned into a transaction
+type cand struct {
+	txKind string // Deploy / Call / Terminate
+	kind   string // base contract type
+	c      *C15Contract
+	from   *Actor
+	method string
+	amount *big.Int
+	args   [][]byte
+	code   []byte
+	nonce  []byte
+	shape  string
+	urgent bool
+	noMut  bool
+	gas    string
 }
 
-var _ = attachments.CreateCallContractAttachment
-var _ = wasm.ComputeContractAddr
+func (g *C15Gen) rich(min *big.Int) *Actor {
+	l := g.Funded
+	off := g.R.Intn(len(l))
+	for i := range l {
+		a := l[(i+off)%len(l)]
+		if !g.usedS[a.Addr] && g.st().GetBalance(a.Addr).Cmp(min) >= 0 {
+			return a
+		}
+	}
+	return nil
+}
+
+func (g *C15Gen) richOr(a *Actor, min *big.Int) *Actor {
+	if a != nil && !g.usedS[a.Addr] && g.st().GetBalance(a.Addr).Cmp(min) >= 0 {
+		return a
+	}
+	return nil
+}
+
+func (g *C15Gen) other(not *Actor) *Actor {
+	for i := 0; i < 8; i++ {
+		a := g.rich(Dna(100))
+		if a != nil && a != not {
+			return a
+		}
+	}
+	return nil
+}
+
+func (g *C15Gen) someAddr() common.Address {
+	switch g.R.Intn(6) {
+	case 0:
+		return c15Addr(g.R)
+	case 1:
+		if len(g.Contracts) > 0 {
+			return g.Contracts[g.R.Intn(len(g.Contracts))].Addr
+		}
+	}
+	return g.Funded[g.R.Intn(len(g.Funded))].Addr
+}
+
+func (g *C15Gen) live(kind string) []*C15Contract {
+	var l []*C15Contract
+	for _, c := range g.Contracts {
+		if c.Kind == kind && g.alive(c) {
+			l = append(l, c)
+		}
+	}
+	return l
+}
+
+// newDeploy proposes the deployment of one instance of kind.
+func (g *C15Gen) newDeploy(kind string) *cand {
+	r := g.R
+	now := g.nextTime()
+	c := &C15Contract{Kind: kind, Born: g.Step}
+	cd := &cand{txKind: "Deploy", kind: kind, c: c, method: "deploy", shape: "valid"}
+	if c15IsWasmKind(kind) {
+		cd.code = c15WasmCode[kind]
+		cd.nonce = r.Bytes(r.Range(1, 4))
+		cd.amount = big.NewInt(0)
+		if r.Intn(4) == 0 {
+			cd.amount = Dna(int64(r.Range(1, 20)))
+		}
+		c.Owner = g.rich(Dna(3500))
+		switch kind {
+		case kSum:
+			if l := g.live(kInc); len(l) > 0 {
+				c.Inc = l[r.Intn(len(l))].Addr
+			} else {
+				c.Inc = c15Addr(r)
+			}
+			cd.args = [][]byte{c.Inc.Bytes()}
+		case kSft:
+			if c.Owner != nil {
+				cd.args = [][]byte{c.Owner.Addr.Bytes(), g.someAddr().Bytes()}
+			}
+		}
+	} else {
+		cd.amount = new(big.Int).Add(g.minStake(), big.NewInt(int64(r.Intn(100000))))
+		c.Owner = g.rich(new(big.Int).Add(cd.amount, Dna(3000)))
+		switch kind {
+		case kTimeLock:
+			c.Timestamp = uint64(int64(now) + int64(r.Range(-200, 900)))
+			cd.args = [][]byte{u64b(c.Timestamp)}
+		case kMultisig:
+			c.MaxVotes = byte(r.Range(1, 4))
+			c.MinVotes = byte(r.Range(1, int(c.MaxVotes)))
+			cd.args = [][]byte{{c.MaxVotes}, {c.MinVotes}}
+		case kOV:
+			ns := uint64(g.W.View().AppState.ValidatorsCache.NetworkSize())
+			c.StartTime = uint64(int64(now) + int64(r.Range(-100, 120)))
+			c.VotingDur = uint64(r.Range(3, 7))
+			committee := ns
+			if r.Intn(4) == 0 {
+				committee = ns * 2 / 3
+			}
+			c.MinPayment = big.NewInt(0)
+			if r.Bool() {
+				c.MinPayment = Dna(int64(r.Range(1, 3)))
+			}
+			ownerFee := byte(0)
+			if r.Intn(3) == 0 {
+				ownerFee = byte(r.Range(1, 30))
+			}
+			cd.args = [][]byte{r.Bytes(r.Range(4, 40)), u64b(c.StartTime), u64b(c.VotingDur), u64b(100), {byte(r.Range(51, 80))}, {byte(r.Range(1, 20))},
+				u64b(committee), c.MinPayment.Bytes(), {ownerFee}}
+			if c.MinPayment.Sign() == 0 {
+				cd.args[7] = []byte{0}
+			}
+			if ownerFee > 0 && r.Bool() {
+				cd.args = append(cd.args, Dna(int64(r.Range(1, 50))).Bytes())
+				if r.Bool() {
+					cd.args = append(cd.args, g.someAddr().Bytes())
+				}
+			}
+			c.Salts, c.Votes = map[common.Address][]byte{}, map[common.Address]byte{}
+		case kOL, kROL:
+			if l := g.live(kOV); len(l) > 0 && r.Intn(4) != 0 {
+				c.OV = l[r.Intn(len(l))].Addr
+			} else {
+				c.OV = c15Addr(r) // a voting that does not exist
+			}
+			c.Value = byte(r.Range(1, 2))
+			succ, fail := g.someAddr(), g.someAddr()
+			if kind == kOL {
+				cd.args = [][]byte{c.OV.Bytes(), {c.Value}, succ.Bytes(), fail.Bytes()}
+			} else {
+				c.Deadline = now + uint64(r.Range(200, 4000))
+				feeArg := u64b(uint64(r.Range(0, 5000)))
+				if !g.up10() {
+					feeArg = []byte{byte(r.Range(1, 20))}
+				}
+				sa, fa := succ.Bytes(), fail.Bytes()
+				if r.Intn(3) == 0 {
+					sa = nil
+				}
+				if r.Intn(3) == 0 {
+					fa = nil
+				}
+				cd.args = [][]byte{c.OV.Bytes(), {c.Value}, sa, fa, u64b(uint64(r.Range(0, 3))), u64b(c.Deadline), feeArg}
+			}
+		}
+	}
+	if c.Owner == nil {
+		return nil
+	}
+	cd.from = c.Owner
+	return cd
+}
+
+func (g *C15Gen) balanceOf(a common.Address) *big.Int { return g.st().GetBalance(a) }
+
+func (g *C15Gen) dust() *big.Int { return new(big.Int).Mul(g.fpg(), big.NewInt(100)) }
+
+func part(v *big.Int, r *verifutil.Rng) *big.Int {
+	if v.Sign() <= 0 {
+		return big.NewInt(0)
+	}
+	switch r.Intn(4) {
+	case 0:
+		return new(big.Int).Set(v)
+	case 1:
+		return new(big.Int).Div(v, big.NewInt(2))
+	}
+	return new(big.Int).Div(v, big.NewInt(int64(r.Range(2, 40))))
+}
+
+// candidates proposes the next interactions with a live instance: what the on-chain state of
+// the contract makes plausible, plus deliberately out-of-protocol ones.
+func (g *C15Gen) candidates(c *C15Contract) []*cand {
+	r := g.R
+	var out []*cand
+	add := func(txKind, method string, from *Actor, amount *big.Int, args ...[]byte) *cand {
+		if from == nil || g.usedS[from.Addr] {
+			return nil
+		}
+		if amount == nil {
+			amount = big.NewInt(0)
+		}
+		cd := &cand{txKind: txKind, kind: c.Kind, c: c, from: from, method: method, amount: amount, args: args, shape: "valid"}
+		out = append(out, cd)
+		return cd
+	}
+	owner := g.richOr(c.Owner, Dna(60))
+	bal := g.balanceOf(c.Addr)
+	now := g.nextTime()
+	switch c.Kind {
+	case kTimeLock:
+		if bal.Cmp(Dna(1)) < 0 && r.Intn(2) == 0 {
+			// a transfer carrying a pay amount funds the contract if it succeeds
+			add("Call", "transfer", owner, Dna(int64(r.Range(2, 60))), g.someAddr().Bytes(), big.NewInt(0).Bytes())
+		}
+		add("Call", "transfer", owner, nil, g.someAddr().Bytes(), part(bal, r).Bytes())
+		if r.Intn(3) == 0 {
+			add("Call", "transfer", owner, nil, g.someAddr().Bytes(), new(big.Int).Add(bal, big.NewInt(int64(r.Range(1, 1000)))).Bytes()) // more than it holds
+		}
+		if r.Intn(4) == 0 {
+			add("Call", "transfer", g.other(c.Owner), nil, g.someAddr().Bytes(), part(bal, r).Bytes())
+		}
+		if now >= c.Timestamp && (bal.Cmp(g.dust()) <= 0 || r.Intn(5) == 0) {
+			add("Terminate", "terminate", owner, nil, g.someAddr().Bytes())
+		} else if r.Intn(6) == 0 {
+			add("Terminate", "terminate", owner, nil, g.someAddr().Bytes())
+		}
+		if r.Intn(8) == 0 {
+			add("Terminate", "terminate", g.other(c.Owner), nil, g.someAddr().Bytes())
+		}
+	case kMultisig:
+		st := c15B0(g.cval(c.Addr, "state"))
+		if st == 1 { // uninitialized
+			v := g.Funded[r.Intn(len(g.Funded))]
+			if cd := add("Call", "add", owner, nil, v.Addr.Bytes()); cd != nil {
+				c.Added = append(c.Added, v)
+			}
+			if r.Intn(4) == 0 {
+				add("Call", "add", g.other(c.Owner), nil, v.Addr.Bytes())
+			}
+			if r.Intn(4) == 0 {
+				add("Call", "push", owner, nil, g.someAddr().Bytes(), Dna(1).Bytes())
+			}
+		} else {
+			if bal.Cmp(Dna(1)) < 0 {
+				// any successful call with a pay amount funds it
+				if len(c.Added) > 0 {
+					v := c.Added[r.Intn(len(c.Added))]
+					add("Call", "send", g.richOr(v, Dna(200)), Dna(int64(r.Range(2, 40))), g.someAddr().Bytes(), big.NewInt(0).Bytes())
+				}
+			}
+			if c.PropAmount == nil || r.Intn(6) == 0 {
+				c.PropDest, c.PropAmount = g.someAddr(), part(bal, r)
+			}
+			for _, v := range c.Added {
+				if r.Intn(2) == 0 {
+					d, a := c.PropDest, c.PropAmount
+					if r.Intn(5) == 0 {
+						d, a = g.someAddr(), part(bal, r)
+					}
+					add("Call", "send", g.richOr(v, Dna(60)), nil, d.Bytes(), a.Bytes())
+					break
+				}
+			}
+			add("Call", "push", g.rich(Dna(60)), nil, c.PropDest.Bytes(), c.PropAmount.Bytes())
+			if r.Intn(4) == 0 {
+				add("Call", "push", g.rich(Dna(60)), nil, g.someAddr().Bytes(), new(big.Int).Add(bal, big.NewInt(7)).Bytes())
+			}
+			if r.Intn(5) == 0 {
+				add("Call", "add", owner, nil, g.someAddr().Bytes())
+			}
+		}
+		if bal.Cmp(g.dust()) <= 0 && r.Intn(3) == 0 || r.Intn(10) == 0 {
+			add("Terminate", "terminate", owner, nil, g.someAddr().Bytes())
+		}
+		if r.Intn(10) == 0 {
+			add("Terminate", "terminate", g.other(c.Owner), nil, g.someAddr().Bytes())
+		}
+	case kOV:
+		// life-cycle duties are generated by ovDuties; here only out-of-protocol extras
+		switch r.Intn(7) {
+		case 0:
+			add("Call", "addStake", g.rich(Dna(100)), Dna(int64(r.Range(0, 5))))
+		case 1:
+			add("Call", "finishVoting", g.rich(Dna(60)), nil)
+		case 2:
+			add("Call", "prolongVoting", g.rich(Dna(60)), nil)
+		case 3:
+			add("Terminate", "terminate", g.rich(Dna(60)), nil)
+		case 4:
+			add("Call", "sendVoteProof", g.rich(Dna(60)), c.MinPayment, r.Bytes(32))
+		case 5:
+			add("Call", "sendVote", g.rich(Dna(60)), nil, []byte{byte(r.Range(0, 3))}, r.Bytes(8))
+		case 6:
+			add("Call", "startVoting", g.rich(Dna(60)), Dna(int64(r.Range(0, 3))))
+		}
+	case kOL:
+		if bal.Sign() == 0 && r.Intn(2) == 0 {
+			add("Call", "checkOracleVoting", g.rich(Dna(100)), Dna(int64(r.Range(1, 30)))) // funds it when it succeeds
+		}
+		add("Call", "checkOracleVoting", g.rich(Dna(60)), nil)
+		add("Call", "push", g.rich(Dna(60)), nil)
+		if r.Intn(3) == 0 {
+			add("Terminate", "terminate", owner, nil)
+		}
+		if r.Intn(6) == 0 {
+			add("Terminate", "terminate", g.other(c.Owner), nil)
+		}
+	case kROL:
+		minDep := new(big.Int).Mul(g.fpg(), big.NewInt(10000))
+		st := c15B0(g.cval(c.Addr, "state"))
+		if now <= c.Deadline || r.Intn(4) == 0 {
+			dep := new(big.Int).Add(minDep, Dna(int64(r.Range(0, 300))))
+			if r.Intn(6) == 0 {
+				dep = part(minDep, r) // too low
+			}
+			add("Call", "deposit", g.rich(new(big.Int).Add(dep, Dna(60))), dep)
+		}
+		if st == 1 || r.Intn(4) == 0 {
+			add("Call", "push", g.rich(Dna(60)), nil)
+		}
+		if st == 4 || r.Intn(4) == 0 {
+			add("Call", "refund", g.rich(Dna(60)), nil)
+		}
+		if bal.Sign() == 0 && r.Intn(2) == 0 || r.Intn(8) == 0 {
+			add("Terminate", "terminate", owner, nil, g.someAddr().Bytes())
+		}
+		if r.Intn(10) == 0 {
+			add("Terminate", "terminate", g.other(c.Owner), nil, g.someAddr().Bytes())
+		}
+	case kErc20:
+		if len(c.Holders) == 0 {
+			c.Holders = []*Actor{c.Owner}
+		}
+		h := c.Holders[r.Intn(len(c.Holders))]
+		to := g.Funded[r.Intn(len(g.Funded))]
+		amt := big.NewInt(int64(r.Range(1, 5000)))
+		pay := big.NewInt(0)
+		if r.Intn(5) == 0 {
+			pay = Dna(int64(r.Range(1, 9)))
+		}
+		switch r.Intn(6) {
+		case 0, 1:
+			if cd := add("Call", "transfer", g.richOr(h, Dna(300)), pay, to.Addr.Bytes(), amt.Bytes()); cd != nil && len(c.Holders) < 6 {
+				c.Holders = append(c.Holders, to)
+			}
+		case 2:
+			add("Call", "approve", g.richOr(h, Dna(300)), pay, to.Addr.Bytes(), amt.Bytes())
+		case 3:
+			add("Call", "transferFrom", g.rich(Dna(300)), pay, h.Addr.Bytes(), to.Addr.Bytes(), amt.Bytes())
+		case 4:
+			add("Call", "getBalance", g.rich(Dna(300)), pay, h.Addr.Bytes())
+		case 5:
+			add("Call", "transfer", g.rich(Dna(300)), pay, to.Addr.Bytes(), new(big.Int).Lsh(big.NewInt(1), uint(r.Range(20, 120))).Bytes()) // more tokens than anybody has
+		}
+	case kInc:
+		add("Call", "inc", g.rich(Dna(300)), nil, u64b(uint64(r.Intn(1000))))
+	case kSum:
+		add("Call", "invoke", g.rich(Dna(400)), nil, u64b(uint64(r.Intn(1000))), u64b(uint64(r.Intn(1000))))
+		if r.Intn(5) == 0 {
+			add("Call", "_sum", g.rich(Dna(300)), nil, u64b(1))
+		}
+	case kSft:
+		switch r.Intn(4) {
+		case 0:
+			add("Call", "getBalance", g.rich(Dna(300)), nil)
+		case 1:
+			add("Call", "transferTo", g.richOr(c.Owner, Dna(300)), nil, g.someAddr().Bytes(), big.NewInt(int64(r.Range(0, 5))).Bytes())
+		case 2:
+			add("Call", "receive", g.rich(Dna(300)), nil, big.NewInt(5).Bytes(), g.someAddr().Bytes())
+		case 3:
+			add("Call", "_addBalance", g.rich(Dna(300)), nil, big.NewInt(5).Bytes())
+		}
+	case kCases:
+		sub := []string{kInc, kInc, kSum, kErc20}[r.Intn(4)]
+		pay := big.NewInt(0)
+		if r.Intn(3) == 0 {
+			pay = Dna(int64(r.Range(1, 30)))
+		}
+		caseNo := uint32(1)
+		if r.Intn(6) == 0 {
+			caseNo = uint32(r.Range(0, 5))
+		}
+		add("Call", "test", g.rich(Dna(900)), pay, common.ToBytes(caseNo), c15WasmCode[sub])
+	}
+	return out
+}
+
+// ------------------------------------------------------------------ oracle voting life cycle
+
+// ovDuties emits what keeps a voting moving: start, proofs while the secret phase is open,
+// reveals afterwards, finish / prolong. Returns a designated same-block class when it decides
+// that all outstanding reveals and the finishVoting that pays them go into ONE block.
+func (g *C15Gen) ovDuties(c *C15Contract) (acts []*cand, multi *C15Multi) {
+	r := g.R
+	if g.usedC[c] {
+		return
+	}
+	stv := c15B0(g.cval(c.Addr, "state"))
+	mk := func(method string, from *Actor, amount *big.Int, args ...[]byte) *cand {
+		if from == nil || g.usedS[from.Addr] {
+			return nil
+		}
+		if amount == nil {
+			amount = big.NewInt(0)
+		}
+		cd := &cand{txKind: "Call", kind: kOV, c: c, from: from, method: method, amount: amount, args: args, shape: "valid", urgent: true}
+		g.usedS[from.Addr] = true
+		return cd
+	}
+	switch stv {
+	case 0: // pending
+		if g.nextTime() < c.StartTime+20 && r.Intn(5) != 0 {
+			return
+		}
+		dep := new(big.Int).SetBytes(g.cval(c.Addr, "ownerDeposit"))
+		need := new(big.Int).Sub(dep, g.balanceOf(c.Addr))
+		if need.Sign() < 0 {
+			need = big.NewInt(0)
+		}
+		need.Add(need, Dna(int64(r.Range(0, 40))))
+		if r.Intn(8) == 0 {
+			need = part(need, r) // too little
+		}
+		if cd := mk("startVoting", g.rich(new(big.Int).Add(need, Dna(60))), need); cd != nil {
+			acts = append(acts, cd)
+			g.usedC[c] = true
+		}
+	case 1: // started
+		start := c15U64(g.cval(c.Addr, "startBlock"))
+		dur := g.nextHeight() - start
+		vd := c15U64(g.cval(c.Addr, "votingDuration"))
+		if dur < vd {
+			// secret phase: a few identities prove and lock their vote
+			n := r.Range(1, 4)
+			for _, v := range g.W.Idents {
+				if n == 0 {
+					break
+				}
+				if _, done := c.Salts[v.Addr]; done || g.usedS[v.Addr] || r.Intn(3) == 0 {
+					continue
+				}
+				if g.st().GetBalance(v.Addr).Cmp(Dna(100)) < 0 {
+					continue
+				}
+				salt := r.Bytes(r.Range(1, 16))
+				vote := byte(1)
+				if r.Intn(3) == 0 {
+					vote = byte(r.Range(0, 3))
+				}
+				h := crypto.Hash(append(common.ToBytes(vote), salt...))
+				pay := new(big.Int).Set(new(big.Int).SetBytes(g.cval(c.Addr, "votingMinPayment")))
+				if r.Intn(4) == 0 {
+					pay.Add(pay, Dna(1))
+				}
+				if cd := mk("sendVoteProof", v, pay, h[:]); cd != nil {
+					c.Salts[v.Addr], c.Votes[v.Addr] = salt, vote
+					acts = append(acts, cd)
+					n--
+				}
+			}
+			return
+		}
+		// public phase: who still has a hash stored on chain?
+		var pending []*Actor
+		for _, v := range g.W.Idents {
+			if _, ok := c.Salts[v.Addr]; ok && g.st().GetContractValue(c.Addr, append([]byte("voteHashes"), v.Addr.Bytes()...)) != nil {
+				pending = append(pending, v)
+			}
+		}
+		voted := c15U64(g.cval(c.Addr, "votedCount"))
+		if len(pending) >= 2 && r.Intn(3) != 0 {
+			// designated class: every outstanding reveal and the finishVoting in one block. The
+			// finisher is the revealer with the largest nonce: the pool orders by nonce, so the
+			// finishVoting (nonce+1) comes after every reveal.
+			var fin *Actor
+			var finNonce uint32
+			ok := true
+			for _, v := range pending {
+				if g.usedS[v.Addr] {
+					ok = false
+				}
+				if n := g.W.NextNonce(v); fin == nil || n > finNonce {
+					fin, finNonce = v, n
+				}
+			}
+			if ok {
+				multi = &C15Multi{Class: c15Versioned(kOV, g.up10()) + ":sendVote+finishVoting", C: c}
+				for _, v := range pending {
+					cd := mk("sendVote", v, nil, []byte{c.Votes[v.Addr]}, c.Salts[v.Addr])
+					cd.noMut = true
+					multi.Acts = append(multi.Acts, g.build(cd))
+				}
+				fcd := &cand{txKind: "Call", kind: kOV, c: c, from: fin, method: "finishVoting", amount: big.NewInt(0), shape: "valid", urgent: true, noMut: true}
+				fa := g.build(fcd)
+				// nonce right after the finisher's own reveal
+				fa.Tx = SignedTx(fin, fa.Tx.Type, fa.Tx.To, fa.Tx.Amount, fa.Tx.MaxFee, nil, finNonce+1, fa.Tx.Epoch, fa.Tx.Payload)
+				multi.Acts = append(multi.Acts, fa)
+				g.usedC[c] = true
+				return nil, multi
+			}
+		}
+		if len(pending) > 0 {
+			n := r.Range(1, 3)
+			for _, v := range pending {
+				if n == 0 {
+					break
+				}
+				salt, vote := c.Salts[v.Addr], c.Votes[v.Addr]
+				if r.Intn(10) == 0 {
+					salt = r.Bytes(4) // wrong salt: "wrong vote hash"
+				}
+				if cd := mk("sendVote", v, nil, []byte{vote}, salt); cd != nil {
+					acts = append(acts, cd)
+					n--
+				}
+			}
+			return
+		}
+		// nothing left to reveal: finish or prolong
+		g.usedC[c] = true
+		if voted > 0 && r.Intn(5) != 0 {
+			if cd := mk("finishVoting", g.rich(Dna(100)), nil); cd != nil {
+				acts = append(acts, cd)
+			}
+		} else {
+			if cd := mk("prolongVoting", g.rich(Dna(100)), nil); cd != nil {
+				acts = append(acts, cd)
+				// a prolonged voting starts a new secret phase: everybody may prove again
+				c.Salts, c.Votes = map[common.Address][]byte{}, map[common.Address]byte{}
+			}
+		}
+	}
+	return
+}
+
+// ------------------------------------------------------------------ mutation
+
+var c15ForeignMethods = []string{"transfer", "add", "send", "push", "startVoting", "sendVoteProof", "sendVote", "finishVoting", "prolongVoting", "addStake",
+	"checkOracleVoting", "deposit", "refund", "deploy", "terminate", "allocate", "__deploy", "_sum", "inc", "invoke", "test", "transferTo", "getBalance"}
+
+func (g *C15Gen) mutate(cd *cand) {
+	r := g.R
+	args := append([][]byte{}, cd.args...)
+	pickArg := func() int {
+		if len(args) == 0 {
+			return -1
+		}
+		return r.Intn(len(args))
+	}
+	switch r.Pick(10, 6, 8, 12, 6, 8, 8, 4, 10, 8, 6, 14, 4, 4) {
+	case 0:
+		if len(args) > 0 {
+			args = args[:len(args)-1]
+		}
+		cd.shape = "mut:args-drop-last"
+	case 1:
+		args = nil
+		cd.shape = "mut:args-drop-all"
+	case 2:
+		args = append(args, r.Bytes(r.Intn(40)))
+		cd.shape = "mut:args-extra"
+	case 3:
+		if i := pickArg(); i >= 0 {
+			args[i] = r.Bytes(r.Intn(48))
+		}
+		cd.shape = "mut:arg-garbage"
+	case 4:
+		if i := pickArg(); i >= 0 {
+			args[i] = nil
+		}
+		cd.shape = "mut:arg-nil"
+	case 5:
+		if i := pickArg(); i >= 0 {
+			args[i] = append(append([]byte{}, args[i]...), r.Bytes(r.Range(1, 12))...)
+		}
+		cd.shape = "mut:arg-wide"
+	case 6:
+		if i := pickArg(); i >= 0 && len(args[i]) > 0 {
+			args[i] = append([]byte{}, args[i][:r.Intn(len(args[i]))]...)
+		}
+		cd.shape = "mut:arg-narrow"
+	case 7:
+		if len(args) >= 2 {
+			i, j := r.Intn(len(args)), r.Intn(len(args))
+			args[i], args[j] = args[j], args[i]
+		}
+		cd.shape = "mut:args-swap"
+	case 8:
+		if cd.txKind == "Call" {
+			switch r.Intn(4) {
+			case 0:
+				cd.method = ""
+			case 1:
+				cd.method = string(r.Bytes(r.Range(1, 40)))
+			default:
+				cd.method = c15ForeignMethods[r.Intn(len(c15ForeignMethods))]
+			}
+		}
+		cd.shape = "mut:method"
+	case 9:
+		if o := g.other(cd.from); o != nil {
+			cd.from = o
+		}
+		cd.shape = "mut:caller"
+	case 10:
+		if r.Bool() {
+			cd.amount = Dna(int64(r.Range(1, 400)))
+		} else {
+			cd.amount = big.NewInt(int64(r.Intn(1000)))
+		}
+		cd.shape = "mut:amount"
+	case 11:
+		cd.gas = []string{"exact", "tiny", "low", "low"}[r.Intn(4)]
+		cd.shape = "mut:gas-" + cd.gas
+	case 12:
+		if cd.txKind == "Deploy" && cd.code != nil {
+			code := append([]byte{}, cd.code...)
+			switch r.Intn(3) {
+			case 0:
+				code = code[:r.Intn(len(code))]
+			case 1:
+				code[r.Intn(len(code))] ^= byte(1 << uint(r.Intn(8)))
+			case 2:
+				code = r.Bytes(r.Range(1, 200))
+			}
+			cd.code = code
+			cd.shape = "mut:code"
+		} else if cd.txKind == "Deploy" {
+			// embedded code hash together with WASM code: executes as WASM
+			cd.code = c15WasmCode[kInc]
+			cd.shape = "mut:embedded-hash-with-code"
+		} else {
+			cd.shape = "mut:none"
+		}
+	case 13:
+		// another tx type against the same target
+		if cd.txKind == "Call" {
+			cd.txKind, cd.method = "Terminate", "terminate"
+		} else if cd.txKind == "Terminate" {
+			cd.txKind, cd.method = "Call", "terminate"
+		}
+		cd.shape = "mut:txtype"
+	}
+	cd.args = args
+}
+
+// build turns a candidate into a signed transaction.
+func (g *C15Gen) build(cd *cand) *C15Action {
+	r := g.R
+	wasmTx := c15IsWasmKind(cd.kind) || cd.code != nil
+	gas := cd.gas
+	if gas == "" {
+		gas = "ample"
+		if !cd.noMut && r.Intn(25) == 0 {
+			gas = "max"
+		}
+	}
+	var tips *big.Int
+	if !cd.noMut && r.Intn(12) == 0 {
+		tips = big.NewInt(int64(r.Intn(1000000)))
+		if r.Intn(3) == 0 {
+			tips = Dna(int64(r.Range(1, 5)))
+		}
+	}
+	a := &C15Action{From: cd.from, C: cd.c, TxKind: cd.txKind, Shape: cd.shape, Args: cd.args, GasClass: gas, Urgent: cd.urgent}
+	a.Kind = c15Versioned(cd.kind, g.up10())
+	switch cd.txKind {
+	case "Deploy":
+		hash := c15CodeHash[cd.kind] // zero hash for WASM kinds
+		att := attachments.CreateDeployContractAttachment(hash, cd.code, cd.nonce, cd.args...)
+		pl, _ := att.ToBytes()
+		a.Tx = g.sign(cd.from, types.DeployContractTx, nil, cd.amount, pl, gas, wasmTx, tips)
+		a.Method = "deploy"
+		if cd.code != nil {
+			cd.c.Addr = wasm.ComputeContractAddrWithUnpackedArgs(cd.code, cd.args, cd.nonce)
+		} else {
+			cd.c.Addr = ContractAddr(cd.from.Addr, a.Tx)
+		}
+	case "Call":
+		att := attachments.CreateCallContractAttachment(cd.method, cd.args...)
+		pl, _ := att.ToBytes()
+		to := cd.c.Addr
+		a.Tx = g.sign(cd.from, types.CallContractTx, &to, cd.amount, pl, gas, wasmTx, tips)
+		a.Method = c15MethodClass(cd.method)
+	case "Terminate":
+		att := attachments.CreateTerminateContractAttachment(cd.args...)
+		pl, _ := att.ToBytes()
+		to := cd.c.Addr
+		a.Tx = g.sign(cd.from, types.TerminateContractTx, &to, cd.amount, pl, gas, wasmTx, tips)
+		a.Method = "terminate"
+	}
+	return a
+}
+
+// ------------------------------------------------------------------ batches
+
+// NextBatch returns the contract transactions of the next block: at most one per sender and
+// (apart from the voting proofs/reveals) one per contract instance, plus possibly one
+// designated several-transactions-in-one-block class.
+func (g *C15Gen) NextBatch() (acts []*C15Action, multis []*C15Multi) {
+	g.Step++
+	r := g.R
+	g.usedC, g.usedS = map[*C15Contract]bool{}, map[common.Address]bool{}
+	// retire instances that never made it or were terminated
+	for _, c := range g.Contracts {
+		if !c.Dead && g.st().GetCodeHash(c.Addr) == nil && (c.Deployed || g.Step-c.Born > 3) {
+			c.Dead = true
+		}
+		if !c.Dead && !c.Deployed && g.st().GetCodeHash(c.Addr) != nil {
+			c.Deployed = true
+		}
+	}
+	finish := func(cd *cand, submitPct int) {
+		if cd == nil || cd.from == nil {
+			return
+		}
+		if !cd.noMut && !cd.urgent && r.Intn(100) < g.HostilePct {
+			g.mutate(cd)
+		} else if cd.urgent && !cd.noMut && r.Intn(100) < 8 {
+			g.mutate(cd)
+		}
+		if g.usedS[cd.from.Addr] && !cd.urgent {
+			return
+		}
+		g.usedS[cd.from.Addr] = true
+		a := g.build(cd)
+		a.Submit = r.Intn(100) < submitPct
+		if cd.shape != "valid" {
+			a.Submit = r.Intn(100) < submitPct/2
+		}
+		acts = append(acts, a)
+	}
+	// 1. votings
+	for _, c := range g.Contracts {
+		if c.Kind != kOV || !g.alive(c) {
+			continue
+		}
+		cds, m := g.ovDuties(c)
+		for _, cd := range cds {
+			finish(cd, 100)
+		}
+		if m != nil {
+			multis = append(multis, m)
+		}
+	}
+	// 2. designated class: deposits and the refund that pays them in one block
+	for _, c := range g.live(kROL) {
+		if g.usedC[c] || c15B0(g.cval(c.Addr, "state")) != 4 || g.nextTime() > c.Deadline || r.Intn(3) != 0 {
+			continue
+		}
+		if g.nextHeight() < c15U64(g.cval(c.Addr, "refundBlock")) {
+			continue
+		}
+		m := &C15Multi{Class: c15Versioned(kROL, g.up10()) + ":deposit+refund", C: c}
+		minDep := new(big.Int).Mul(g.fpg(), big.NewInt(10000))
+		var last *Actor
+		var lastNonce uint32
+		for i := 0; i < 3; i++ {
+			dep := new(big.Int).Add(minDep, Dna(int64(r.Range(0, 600))))
+			from := g.rich(new(big.Int).Add(dep, Dna(100)))
+			if from == nil {
+				continue
+			}
+			g.usedS[from.Addr] = true
+			cd := &cand{txKind: "Call", kind: kROL, c: c, from: from, method: "deposit", amount: dep, shape: "valid", noMut: true}
+			m.Acts = append(m.Acts, g.build(cd))
+			if n := g.W.NextNonce(from); last == nil || n > lastNonce {
+				last, lastNonce = from, n
+			}
+		}
+		if len(m.Acts) >= 2 {
+			cd := &cand{txKind: "Call", kind: kROL, c: c, from: last, method: "refund", amount: big.NewInt(0), shape: "valid", noMut: true}
+			fa := g.build(cd)
+			fa.Tx = SignedTx(last, fa.Tx.Type, fa.Tx.To, fa.Tx.Amount, fa.Tx.MaxFee, nil, lastNonce+1, fa.Tx.Epoch, fa.Tx.Payload)
+			m.Acts = append(m.Acts, fa)
+			g.usedC[c] = true
+			multis = append(multis, m)
+		}
+	}
+	// 3. deployments: every enabled type early, then keep a few instances of each alive
+	n := r.Range(1, 3)
+	for i := 0; i < n; i++ {
+		var kind string
+		fewest := 1 << 30
+		for _, k := range g.Kinds {
+			cnt := 0
+			for _, c := range g.Contracts {
+				if c.Kind == k && !c.Dead {
+					cnt++
+				}
+			}
+			if cnt < fewest {
+				fewest, kind = cnt, k
+			}
+		}
+		limit := 3
+		if fewest < limit && (fewest == 0 || r.Intn(3) == 0) || r.Intn(14) == 0 {
+			if r.Intn(5) == 0 {
+				kind = g.Kinds[r.Intn(len(g.Kinds))]
+			}
+			if cd := g.newDeploy(kind); cd != nil && !g.usedS[cd.from.Addr] {
+				before := len(acts)
+				finish(cd, 100)
+				if len(acts) > before {
+					a := acts[len(acts)-1]
+					if a.Submit && a.TxKind == "Deploy" {
+						g.Contracts = append(g.Contracts, cd.c)
+					}
+				}
+				continue
+			}
+		}
+		// 4. an interaction with a live instance
+		var live []*C15Contract
+		for _, c := range g.Contracts {
+			if !g.usedC[c] && g.alive(c) {
+				live = append(live, c)
+			}
+		}
+		if len(live) == 0 {
+			continue
+		}
+		c := live[r.Intn(len(live))]
+		cds := g.candidates(c)
+		if len(cds) == 0 {
+			continue
+		}
+		g.usedC[c] = true
+		finish(cds[r.Intn(len(cds))], 85)
+	}
+	return
+}
+
+// JumpClock moves the virtual clock forward by days (legal: a block may be arbitrarily later
+// than its parent) so that time locks open and abandoned pending votings become terminable.
+func (g *C15Gen) JumpClock(d time.Duration) {
+	setClock(g.W.Now().Add(d))
+	g.jumped = true
+}
